@@ -102,6 +102,9 @@ func BytesValue(r *mon.Rand) []byte {
 	if r.Intn(4) == 0 {
 		n = r.Intn(300)
 	}
+	if r.Intn(60) == 0 {
+		n = 4096 + r.Intn(2000) // large values (kid, IV, x5chain...) cross allocation thresholds
+	}
 	b := r.Bytes(n)
 	if b == nil {
 		b = []byte{}
@@ -123,6 +126,14 @@ func Value(r *mon.Rand, depth int) any {
 			}
 		}
 		return v
+	}
+	if depth <= 1 && r.Intn(400) == 0 {
+		// a map-valued parameter with more than a thousand entries
+		m := make(map[any]any, 1100)
+		for j := 0; j < 1100; j++ {
+			m[int64(j)] = int64(j)
+		}
+		return m
 	}
 	k := r.Intn(12)
 	if depth >= 4 && k >= 9 {
